@@ -17,9 +17,9 @@ Open Scope Z_scope.
 (** convert_base's result handed to into_f32/f64_internal through and_then = the base-2 conversion *)
 Lemma and_then_checked_round P m s e : 1 <= MB P ->
   (let '(s0, e0) := normalize 2 s e in and_then_checked P (repr_round 2 (MB P + 1) m s0 e0)) =
-  Ok (fbig2_to_float P m s e).
+  Ok (fbig2_to_float_old P m s e).
 Proof.
-  intros HMB. unfold fbig2_to_float. destruct (normalize 2 s e) as [s0 e0].
+  intros HMB. unfold fbig2_to_float_old. destruct (normalize 2 s e) as [s0 e0].
   destruct (Z.le_gt_cases (dlen 2 s0) (MB P + 1)) as [Hs|Hl].
   - rewrite repr_round_exact by exact Hs. cbn [and_then_checked]. unfold into_float_checked.
     destruct (Z.gtb_spec (dlen 2 s0) (MB P + 1)); [lia | reflexivity].
@@ -34,7 +34,7 @@ Qed.
 
 (** B = 2^n, n > 1 *)
 Theorem fbig_to_float_pow2_base P m n s e : 1 <= MB P -> 1 < n ->
-  fbig_to_float P (2 ^ n) m s e = Ok (fbig2_to_float P m s (e * n)).
+  fbig_to_float P (2 ^ n) m s e = Ok (fbig2_to_float_old P m s (e * n)).
 Proof.
   intros HMB Hn. unfold fbig_to_float.
   assert (HB : 2 ^ n <> 2).
@@ -50,7 +50,7 @@ Qed.
 
 (** a base that is not a power of two, non-negative exponent: the integer s * B^e *)
 Theorem fbig_to_float_nonneg_exp P B m s e : 1 <= MB P -> B <> 2 -> ilog_exact2 B <= 1 -> 0 <= e ->
-  fbig_to_float P B m s e = Ok (fbig2_to_float P m (s * B ^ e) 0).
+  fbig_to_float P B m s e = Ok (fbig2_to_float_old P m (s * B ^ e) 0).
 Proof.
   intros HMB HB Hlog He. unfold fbig_to_float.
   destruct (Z.eqb_spec B 2) as [|_]; [contradiction|].
